@@ -48,9 +48,24 @@ one-level summaries computed to a fixpoint over all units) plus Engine I (sa/int
   R13.16 constant expressions  the evaluators (derived: recursive value functions over Node, through their entry points) yield a value for every operator of 6.6p6/p8
                                and for the address-constant forms of 6.6p9; is_const_expr recognises the integer forms.
 
+  R13.17 stack counter        assert(depth == 0) (the code generator's count of pushed slots is back at 0 at the end of every function) cannot fail: the obligations of
+                               C20 that prove it are re-issued here -- `depth` moves exactly with the emitted %rsp motion on every path of every gen_expr/gen_stmt/gen_addr
+                               arm (R20.3), every arm is %rsp-neutral given the same of its children (the %rsp part of R20.1/R20.2/R20.7), and everything pushed for a call
+                               (arguments, padding, alignment) is released after it for every argument class and stack parity (R20.5).
+  R13.18 end-of-input checks  a diagnostic that fires on the mere fact that a stack-like global is non-empty (`if (cond_incl) error(unterminated ...)`) is a check for the end of the
+                               translation unit: the function that makes it is not reachable from the loop that pushes onto that global, where the non-empty state is what every
+                               valid program passes through (derived: pushers, their loops, the call graph below them).
+  R13.19 host array indices   a subscript of one of the compiler's own arrays whose index is a value of the input (result of the constant-expression evaluators, a literal's value,
+                               or what a callee stored through an int* out-parameter, derived) is dominated on every path by a test that excludes negative values and by a test that
+                               limits it from above (bounds established by a callee on all its returns are carried to the caller).
+  R13.20 recursion progresses a direct self-call of a front-end function is not a re-entry with the same input: (a) it does not pass every parameter on unchanged after a prefix
+                               that has no effect but tests (that call can only repeat itself until the stack overflows); (b) where the arm that recurses was selected by the kind of
+                               what a parameter points to and the argument is a freshly computed object (every definition of the local is a call result, it is no part of the
+                               parameter), the function has examined the new object (excluded that kind) -- an unexamined one can take the same arm again at every level.
+
 Not implemented (stated, not claimed): error_at's pointer lies inside current_file->contents (R13.6, second clause);
 store_fp/store_gp call sites whose argument is MIN(8,size) / size-8 (R13.3, listed as not judged in the evidence);
-assert(depth == 0), assert(ty->size <= 16) in emit_text and the two asserts of hashmap.c:rehash (R13.4, listed).
+assert(ty->size <= 16) in emit_text and the two asserts of hashmap.c:rehash (R13.4, listed).
 """
 from ..build import AnalysisBroken
 from .. import lib_c13 as L
@@ -91,7 +106,6 @@ ASSUMED = {
     ('codegen.c', 'copy_struct_reg', 'current_fn->ty->return_ty'): 'current_fn is a function object',
     ('codegen.c', 'copy_struct_mem', 'current_fn->ty->return_ty'): 'current_fn is a function object',
     # R13.9 (successor of a token that cannot be the end marker for reasons outside the engine's reach)
-    ('preprocess.c', 'paste', 'Token->next'): 'the pasted buffer holds the text of two non-empty tokens, so the first token of its tokenization is not the end marker',
     ('tokenize.c', 'add_line_numbers', 'param#1(Token*)->next'): 'the end marker starts at the terminating NUL, where the byte scan stops (R13.6L terminating-NUL-visited): the cursor is not used after it',
     ('parse.c', 'resolve_goto_labels', 'Node->tok->next'): 'the token of a goto node is the `goto` keyword; stmt() has read the label name that follows it',
 }
@@ -159,6 +173,10 @@ def _world(P):
                 W.record_calls.add(c.callee())
     for (un, fn, path), why in ASSUMED.items():
         W.assumed_nonnull.setdefault((un, fn), set()).add(path)
+    # R13.20: the states in which a function calls itself
+    for un, u in W.units.items():
+        if un != 'codegen.c':
+            W.record_calls |= set(f for f, fd in u.functions.items() if fd.calls(f))
     return W
 
 
@@ -285,6 +303,10 @@ def run(P, rep, tier):
     r1310_phases(P, rep)
     r1311(W, engs, rep)
     r1312(W, engs, rep)
+    r1317(P, W, rep, tier)
+    r1318(W, rep)
+    r1319(W, engs, rep)
+    r1320(W, engs, rep)
     for rule, fam in (('R13.13', LD.r1313_function), ('R13.14', LD.r1314_declspec), ('R13.15', LD.r1315_typing), ('R13.16', LD.r1316_constexpr)):
         try:
             fam(P, rep, rule)
@@ -1877,3 +1899,393 @@ def r1312(W, engs, rep):
                    '"not a function" / "division by zero" although the program is valid' % (g, dname, c.callee(), fsrc), where=where)
     if njudged == 0:
         rep.undecided('R13.12', 'directive:%s' % '/'.join(LAZY_DIRECTIVES), 'no evaluation of a controlling expression under a test for the directive name %s was recognised' % '/'.join('"%s"' % d for d in LAZY_DIRECTIVES))
+
+
+# --------------------------------------------------------------------------------------------
+_RSP_PART = None
+
+
+def _touches_rsp(what):
+    """does the text of a failed C20 arm obligation (R20.1/R20.2/R20.7: machine stack AND x87 stack) report a machine-stack imbalance?  Its parts are
+    produced by sa/chibi.flow_heights and c20.check_kind; a part that is not recognised counts as relevant (never drops a violation silently)."""
+    import re
+    body = what.split('): ', 1)[1] if '): ' in what else what
+    for part in body.split('; '):
+        m = re.search(r'%rsp ([+-]?\d+) bytes and x87 depth', part)
+        if m:
+            if int(m.group(1)) != 0:
+                return True
+            continue
+        m = re.search(r'inconsistent stack height at .*: \((-?\d+), -?\d+\) vs \((-?\d+), -?\d+\)', part)
+        if m:
+            if m.group(1) != m.group(2):
+                return True
+            continue
+        if 'x87 mnemonic' in part:
+            continue
+        return True
+    return False
+
+
+def r1317(P, W, rep, tier):
+    """assert(depth == 0): the counter of pushed slots returns to 0 at the end of every function.  By induction over the tree: each arm of gen_expr / gen_stmt /
+    gen_addr leaves `depth` where it found it provided its children do.  That is what C20 proves from the emitted code: `depth` follows %rsp (R20.3), each arm and
+    each call sequence is %rsp-neutral (R20.1/R20.2/R20.7 machine-stack part, R20.5).  The obligations are C20's; a breach of one of them is, for this property,
+    an input on which the assertion aborts the compiler."""
+    cu = W.units['codegen.c']
+    sites = []
+    for f, fd in sorted(cu.functions.items()):
+        for c in fd.calls('__assert_fail'):
+            cond, neg = _assert_cond(c)
+            if cond is None:
+                continue
+            refs = [n for n in cond.walk() if n.kind == 'DeclRefExpr' and n.ref_kind == 'VarDecl' and n.ref_id in cu.by_id]
+            # an assertion about a global integer counter of the code generator that its push/pop helpers maintain
+            if refs and all(n.ref_name == refs[0].ref_name for n in refs) and (refs[0].type or '') == 'int' and not list(cond.find('MemberExpr')):
+                sites.append((f, c, cond, refs[0].ref_name))
+    sites = [s for s in sites if s[3] == 'depth']
+    if not sites:
+        rep.extra['R13.17'] = 'no assertion on the stack counter `depth` is left in codegen.c: nothing to prove'
+        return
+    rep.rule('R13.17', 'the assertion on the code generator\'s stack counter (`depth` is 0 again at the end of every function) cannot fail: on every path of every gen_expr / gen_stmt / '
+                       'gen_addr arm `depth` moves exactly with the emitted %rsp motion, every arm is %rsp-neutral given the same of its children, and everything pushed for a call '
+                       '(arguments, padding for 16-byte aligned arguments, alignment of the call) is released after it for every argument class and stack parity (obligations of C20, re-issued)', floor=250)
+    from ..report import Report, reissue
+    from ..interp import Unsupported
+    from . import c20
+    f0, c0, cond0, g = sites[0]
+    where = 'codegen.c:%d' % c0.line
+    sub = Report('C20')
+    try:
+        if hasattr(c20, '_seen_depth'):
+            c20._seen_depth.clear()
+        c20.run(P, sub, tier)
+    except (AnalysisBroken, Unsupported) as e:
+        rep.undecided('R13.17', 'codegen.c:%s:assert(%s)' % (f0, _canon(cond0)), 'the stack accounting of the code generator cannot be interpreted: %s' % e, where=where)
+        return
+    why = ('%s() asserts `%s` (codegen.c:%d); an expression or statement of this form leaves the counter off, so a valid program that contains it makes the assertion abort the '
+           'compiler (SIGABRT) instead of producing assembly: ' % (f0, cond0.src(), c0.line))
+
+    def keep(o):
+        r = o['key'].split(':', 1)[0]
+        if r == 'R20.3':
+            return True
+        if r == 'R20.5':
+            return not o['key'].endswith(':x87')
+        if r in ('R20.1', 'R20.2', 'R20.7'):
+            return o['verdict'] != 'violation' or _touches_rsp(o['what'] or '')
+        return False
+    n = reissue(rep, 'R13.17', sub, why, keep=keep)
+    if 'asserts_not_judged' in rep.extra:
+        rep.extra['asserts_not_judged'] = [k for k in rep.extra['asserts_not_judged'] if k != 'codegen.c:%s:assert(%s)' % (f0, _canon(cond0))]
+    rep.extra['R13.17'] = {'assertion': 'codegen.c:%s:assert(%s)' % (f0, _canon(cond0)), 'obligations_of_C20_reissued': n}
+
+
+# --------------------------------------------------------------------------------------------
+def _null_sense(cond, is_g):
+    """True: cond holds exactly when the global is non-null; False: exactly when it is null; None: something else"""
+    c = cond.strip()
+    if c.kind == 'DeclRefExpr' and is_g(c):
+        return True
+    if c.kind == 'UnaryOperator' and c.opcode == '!':
+        r = _null_sense(c.inner[0], is_g)
+        return None if r is None else (not r)
+    if c.kind == 'BinaryOperator' and c.opcode in ('!=', '=='):
+        a, b = c.inner[0].strip_all(), c.inner[1].strip_all()
+        for x, y in ((a, b), (b, a)):
+            if x.kind == 'DeclRefExpr' and is_g(x) and y.int_value() == 0:
+                return c.opcode == '!='
+    return None
+
+
+def r1318(W, rep):
+    """valid input is not rejected by a check that belongs to the end of the input.  A global that the directive/statement loop pushes onto (`g = new; new->next = old g`) is
+    legitimately non-empty while that loop runs; a diagnostic whose only condition is `g != NULL` says "still open at the end" and must not be reachable from inside the loop."""
+    rep.rule('R13.18', 'a diagnostic whose only condition is that a stack-like global is non-empty (an end-of-translation-unit check such as "unterminated conditional directive") is not '
+                       'reachable from the loop that pushes onto that global: inside that loop the non-empty state is what every valid program passes through, so the check would reject '
+                       'valid input (C11 6.10.1: directives may appear inside a conditional group)', floor=1)
+    diag = set(f for f in W.noreturn if f in W.fn_unit)
+    callees = {}
+    for un, u in W.units.items():
+        for f, fd in u.functions.items():
+            callees.setdefault(f, set()).update(c.callee() for c in fd.calls() if c.callee() in W.fn_unit)
+    LOOPS = ('WhileStmt', 'ForStmt', 'DoStmt')
+    for un, u in sorted(W.units.items()):
+        if un == 'codegen.c':
+            continue
+        for g, gd in sorted(u.globals.items()):
+            if not L.is_ptr_type(gd.type or ''):
+                continue
+            is_g = lambda n, g=g, u=u: n.ref_kind == 'VarDecl' and n.ref_name == g and n.ref_id in u.by_id
+            # end checks on g
+            checks = []
+            for G, fd in sorted(u.functions.items()):
+                body = u.body(G)
+                for c in fd.calls(tuple(diag)):
+                    n, p, sole, guarded = c, c.parent, True, False
+                    while p is not None and p is not body and sole:
+                        if p.kind == 'IfStmt' and p.inner[0] is not n:
+                            sense = _null_sense(p.inner[0], is_g)
+                            if sense is None or (p.inner[1] is n) != sense:
+                                sole = False
+                            guarded = True
+                        elif p.kind != 'CompoundStmt':
+                            sole = False
+                        if sole and p.parent is not None and p.parent.kind == 'CompoundStmt':
+                            # nothing before it leaves the function or stops the compiler
+                            for sib in p.parent.inner:
+                                if sib is p:
+                                    break
+                                if any(x.kind in ('ReturnStmt', 'GotoStmt') or (x.kind == 'CallExpr' and x.callee() in W.noreturn) for x in sib.walk()):
+                                    sole = False
+                        n, p = p, p.parent
+                    if sole and guarded and p is body:
+                        checks.append((G, c))
+            if not checks:
+                continue
+            # the loops that push onto g, and what they can reach
+            pushers = set()
+            for f, fd in u.functions.items():
+                for b in fd.find('BinaryOperator'):
+                    if b.opcode == '=' and b.inner[0].strip().kind == 'DeclRefExpr' and is_g(b.inner[0].strip()):
+                        r = b.inner[1]
+                        if r.strip_all().int_value() == 0 or r.cast_kind == 'NullToPointer' or any(x.kind == 'DeclRefExpr' and is_g(x) for x in r.walk()):
+                            continue        # reset / pop
+                        pushers.add(f)
+            reach = {}      # function -> (loop function, caller) it was first reached from
+            for Lf, fd in sorted(u.functions.items()):
+                for c in fd.calls(tuple(pushers)) if pushers else []:
+                    loop = None
+                    for a in c.ancestors():
+                        if a.kind in LOOPS:
+                            loop = a
+                    if loop is None:
+                        continue
+                    work = []
+                    for c2 in loop.calls():
+                        if c2.callee() in W.fn_unit and c2.callee() not in reach:
+                            reach[c2.callee()] = (Lf, Lf)
+                            work.append(c2.callee())
+                    while work:
+                        x = work.pop()
+                        for y in sorted(callees.get(x, ())):
+                            if y not in reach:
+                                reach[y] = (reach[x][0], x)
+                                work.append(y)
+            for G, c in checks:
+                a = c.args()
+                msg = next((x.str_value() for x in a if x.str_value() is not None), None)
+                key = '%s:%s:end-check(%s)' % (un, G, g)
+                where = '%s:%d' % (un, c.line)
+                if not pushers:
+                    rep.undecided('R13.18', key, 'no function that pushes onto %s was recognised' % g, where=where)
+                    continue
+                if G in reach:
+                    chain = [G]
+                    while reach[chain[-1]][1] != reach[chain[-1]][0] and len(chain) < 12:
+                        chain.append(reach[chain[-1]][1])
+                    chain.append(reach[G][0])
+                    callers = sorted(x for x in reach if G in callees.get(x, ())) or [reach[G][0]]
+                    rep.ob('R13.18', key + '<-' + ','.join(callers), False,
+                           '%s() reports "%s" whenever `%s` is non-empty, i.e. it is the check for the end of the translation unit, but it can be called while the loop of %s() that pushes onto `%s` '
+                           '(%s) is still running (%s): there a non-empty `%s` is the normal state of a valid program, which is then rejected'
+                           % (G, msg, g, reach[G][0], g, ', '.join(sorted(pushers)), ' <- '.join(chain), g), where=where, facts={'call_chain': list(reversed(chain)), 'pushers': sorted(pushers)})
+                else:
+                    rep.ob('R13.18', key, True, '', where=where)
+
+
+# --------------------------------------------------------------------------------------------
+def r1319(W, engs, rep):
+    """the compiler's own arrays are not indexed with an unchecked value of the input"""
+    rep.rule('R13.19', 'where the index of a subscript in the front end is a value of the input (any 64-bit value: result of the constant-expression evaluators, value of a literal, or such a '
+                       'value stored by a callee through an out-parameter), a test that excludes negative values and a test that limits it from above dominate the subscript on every path '
+                       '(otherwise `[-1] = 1` reads or writes outside the compiler\'s array: SIGSEGV or silent corruption instead of a located diagnostic)', floor=1)
+    n = 0
+    for (un, f), e in sorted(engs.items()):
+        if un == 'codegen.c':
+            continue
+        obs = {}
+        for d in e.idxs.values():
+            node = d['node']
+            q = d['alias'] or d['path']
+            shown = e.show(q) if q else _canon(node.inner[1])
+            base = '%s:%s:%s[%s]' % (un, f, _canon(node.inner[0]), shown)
+            src = '%s: %s' % (d['src'][1], d['src'][2]) if len(d['src']) > 2 else d['src'][1]
+            for tag, ok, what in (('not-negative', d['lb'], 'no dominating test or diagnostic excludes negative values'), ('bounded-above', d['ub'], 'no dominating test limits it from above')):
+                key = '%s:%s' % (base, tag)
+                o = obs.get(key)
+                if o is None or (o[0] and not ok):
+                    obs[key] = (ok, '%s() indexes `%s` with `%s`, a value of the input (%s), and %s%s: for an input such as `[-1] = 1` / `[2147483647] = 1` the compiler reads or writes outside its own '
+                                'array (SIGSEGV or silent corruption) instead of printing a located diagnostic'
+                                % (f, node.inner[0].src(), node.inner[1].src(), src, what, (' (in the arm %s)' % d['ctx']) if d['ctx'] else ''), '%s:%d' % (un, node.line), {'index': node.inner[1].src(), 'source': src})
+        for key, (ok, msg, where, facts) in sorted(obs.items()):
+            n += 1
+            rep.ob('R13.19', key, ok, msg, where=where, facts=facts)
+    rep.extra['host_array_indices'] = {'out_parameters_that_carry_an_input_value (derived: function#parameter -> [source, not negative on every return, bounded above on every return])':
+                                       {'%s#%d' % (f, i + 1): [v[0][1], v[1], v[2]] for (f, i), v in sorted(W.out_taint.items())}}
+
+
+# --------------------------------------------------------------------------------------------
+def _effect_free(W, u, n):
+    """the subtree performs no store outside the function's own locals and calls only functions without side effects"""
+    for x in n.walk():
+        tgt = None
+        if x.kind in ('BinaryOperator', 'CompoundAssignOperator') and (x.opcode == '=' or x.kind == 'CompoundAssignOperator'):
+            tgt = x.inner[0]
+        elif x.kind == 'UnaryOperator' and x.opcode in ('++', '--'):
+            tgt = x.inner[0]
+        elif x.kind == 'CallExpr' and x.callee() not in W.pure:
+            return False
+        if tgt is not None:
+            t = tgt.strip()
+            if not (t.kind == 'DeclRefExpr' and t.ref_kind in ('VarDecl', 'ParmVarDecl') and t.ref_id not in u.by_id):
+                return False
+    return True
+
+
+def _leaves(W, s):
+    """the statement never falls through (ends in return / a call that does not return)"""
+    if s.kind in ('ReturnStmt', 'GotoStmt'):
+        return True
+    if s.kind == 'CallExpr':
+        return s.callee() in W.noreturn
+    if s.kind == 'CompoundStmt':
+        return bool(s.inner) and _leaves(W, s.inner[-1])
+    if s.kind == 'IfStmt':
+        return len(s.inner) > 2 and _leaves(W, s.inner[1]) and _leaves(W, s.inner[2])
+    return False
+
+
+def _may_flow(W, x, c):
+    """can control pass from the node x to the node c of the same function (syntactic, conservative: True when in doubt)"""
+    chain_c = [c] + list(c.ancestors())
+    ids_c = set(id(n) for n in chain_c)
+    sx, A = x, x.parent
+    below = [x]
+    while A is not None and id(A) not in ids_c:
+        sx, A = A, A.parent
+        below.append(sx)
+    if A is None:
+        return True
+    for n in chain_c[chain_c.index(A):] if A in chain_c else []:
+        if n.kind in ('WhileStmt', 'ForStmt', 'DoStmt', 'LabelStmt'):
+            return True
+    if any(n.kind in ('CompoundStmt', 'IfStmt', 'ReturnStmt') and _leaves(W, n) for n in below):
+        return False            # x lies in a statement that never falls through
+    sc = chain_c[chain_c.index(A) - 1] if chain_c.index(A) > 0 else c
+    if A.kind == 'CompoundStmt':
+        return A.inner.index(sx) < A.inner.index(sc) if (sx in A.inner and sc in A.inner) else True
+    if A.kind == 'IfStmt':
+        return sx is A.inner[0]
+    return True
+
+
+def r1320(W, engs, rep):
+    """non-progress recursion: the compiler answers with a stack overflow (SIGSEGV) instead of a diagnostic"""
+    rep.rule('R13.20', 'a direct self-call of a front-end function is not a re-entry with the same input: it does not hand every parameter on unchanged after a prefix that only tests '
+                       '(such a call repeats itself until the stack overflows), and where the recursing arm was selected by the kind of what a parameter points to and the argument is a '
+                       'freshly computed object (every definition of that local is a call result; it is no part of the parameter), the function has examined the new object before the call (that kind is excluded, or the object is at least tested)', floor=60)
+    for (un, f), e in sorted(engs.items()):
+        if un == 'codegen.c':
+            continue
+        u = W.units[un]
+        fd = e.fd
+        calls = fd.calls(f)
+        if not calls:
+            continue
+        body = u.body(f)
+        pids = [p.id for p in e.params]
+        # parameters the function never changes (no assignment, no address taken)
+        changes = {}
+        for x in fd.walk():
+            t = None
+            if x.kind in ('BinaryOperator', 'CompoundAssignOperator') and (x.opcode == '=' or x.kind == 'CompoundAssignOperator'):
+                t = x.inner[0].strip()
+            elif x.kind == 'UnaryOperator' and x.opcode in ('++', '--', '&'):
+                t = x.inner[0].strip()
+            if t is not None and t.kind == 'DeclRefExpr' and t.ref_id in pids:
+                changes.setdefault(t.ref_id, []).append(x)
+        # locals all of whose definitions are call results
+        defs = {}
+        for x in fd.walk():
+            if x.kind == 'VarDecl' and x.id not in u.by_id:
+                ex = [c for c in x.inner if not c.kind.endswith('Attr')]
+                defs.setdefault(x.id, []).append(ex[-1] if ('init' in x.d and ex) else None)
+            elif x.kind == 'BinaryOperator' and x.opcode == '=' and x.inner[0].strip().kind == 'DeclRefExpr':
+                defs.setdefault(x.inner[0].strip().ref_id, []).append(x.inner[1])
+            elif x.kind == 'UnaryOperator' and x.opcode in ('++', '--', '&') and x.inner[0].strip().kind == 'DeclRefExpr':
+                if x.opcode != '&' or not (x.parent is not None and x.parent.kind == 'CallExpr' and x.parent.callee() == f):
+                    defs.setdefault(x.inner[0].strip().ref_id, []).append(None)
+        fresh = set(i for i, l in defs.items() if l and all(d is not None and d.strip_all().kind == 'CallExpr' and d.strip_all().callee() in W.fn_unit for d in l))
+        seen = {}
+        for c in calls:
+            changed = set(pid for pid, xs in changes.items() if any(_may_flow(W, x, c) for x in xs))
+            a = c.args()
+            sig = ','.join(_canon(x) for x in a)
+            key = '%s:%s:self-call(%s)' % (un, f, sig)
+            where = '%s:%d' % (un, c.line)
+            # (a) identical re-entry
+            same = len(a) == len(pids) and bool(pids) and all(x.strip_all().kind == 'DeclRefExpr' and x.strip_all().ref_id == pids[i] and pids[i] not in changed for i, x in enumerate(a))
+            bad = None
+            if same:
+                quiet = True
+                n, p = c, c.parent
+                while p is not None and quiet:
+                    if p.kind == 'CompoundStmt':
+                        for sib in p.inner:
+                            if sib is n:
+                                break
+                            if sib.kind == 'IfStmt' and _leaves(W, sib.inner[1]) and (len(sib.inner) < 3 or _leaves(W, sib.inner[2])):
+                                quiet = quiet and _effect_free(W, u, sib.inner[0])
+                            else:
+                                quiet = quiet and _effect_free(W, u, sib)
+                    elif p.kind in ('IfStmt', 'ConditionalOperator') and p.inner[0] is not n:
+                        quiet = quiet and _effect_free(W, u, p.inner[0])
+                    elif p.kind in ('WhileStmt', 'ForStmt', 'DoStmt', 'SwitchStmt', 'LabelStmt', 'CaseStmt', 'DefaultStmt'):
+                        quiet = False
+                    elif p.kind == 'CallExpr' or p.kind.endswith('Operator'):
+                        quiet = quiet and all(_effect_free(W, u, k) for k in p.inner if k is not n)
+                    if p is body:
+                        break
+                    n, p = p, p.parent
+                if quiet and p is body:
+                    bad = ('%s() calls itself with every parameter unchanged, and nothing before the call has an effect (only tests and calls without side effects): whenever this '
+                           'call is reached it is reached again at the next level, until the stack overflows (SIGSEGV instead of output or a located diagnostic)' % f)
+                    key += ':same-input'
+            # (b) fresh argument that can take the same arm
+            if bad is None:
+                for node, cal, S, vals in e.calls:
+                    if node is not c or len(vals) != len(pids):
+                        continue
+                    for i, v in enumerate(vals):
+                        x = a[i].strip_all()
+                        pr = '%s@%s' % (e.params[i].name, pids[i])
+                        if pids[i] in changed or x.kind != 'DeclRefExpr' or x.ref_id not in fresh or v.path is None:
+                            continue
+                        K = S.vs.get(pr + '->kind')
+                        if not K or K[0] != 'in' or len(K[1]) > 3 or not all(isinstance(k, str) for k in K[1]):
+                            continue
+                        ak = S.vs.get(v.path + '->kind')
+                        excl = ak is not None and ((ak[0] == 'in' and not (set(ak[1]) & set(K[1]))) or (ak[0] == 'notin' and set(K[1]) <= set(ak[1])))
+                        # the new object is looked at nowhere but in this call: it goes into the recursion unexamined
+                        def up(n):
+                            n = n.parent
+                            while n is not None and n.kind in ('ImplicitCastExpr', 'ParenExpr'):
+                                n = n.parent
+                            return n
+                        unexamined = all(up(n) is c or (up(n) is not None and up(n).kind == 'UnaryOperator' and up(n).opcode == '&' and up(up(n)) is c)
+                                         for n in fd.walk() if n.kind == 'DeclRefExpr' and n.ref_id == x.ref_id)
+                        if not excl and unexamined:
+                            kn = ','.join(sorted(K[1]))
+                            bad = ('%s() takes this arm because its parameter %d is of kind %s and calls itself with `%s`, a freshly computed object (result of %s, not a part of the parameter) whose kind '
+                                   'it has not tested: if that is %s again -- e.g. a word that is not a macro is its own expansion -- the same arm is taken at every level and the recursion ends '
+                                   'in a stack overflow (SIGSEGV) instead of a located diagnostic' % (f, i + 1, kn, a[i].src(), ' / '.join(sorted(set(d.strip_all().callee() + '()' for d in defs[x.ref_id]))), kn))
+                            key += ':fresh-argument-of-kind(%s)' % kn
+                            break
+                    if bad:
+                        break
+            o = seen.get(key)
+            if o is None:
+                seen[key] = (bad is None, bad or '', where)
+        for key, (ok, msg, where) in sorted(seen.items()):
+            rep.ob('R13.20', key, ok, msg, where=where)
